@@ -474,6 +474,33 @@ Definition return_deposit_output (out_ph out_value fee : Z) (dup : bool)
     end
   end.
 
+(* CheckInactiveArbitrators / CheckRevertToDPOSTransaction (blockchain and
+   core/transaction): txn.Programs()[0], then checkCRCArbitratorsSignatures /
+   checkArbitratorsSignatures on its code.  [counts_ok m n]: the m / n / quorum
+   test against the arbiter set (oracle), [member key]: IsCRCArbitrator /
+   IsArbitrator (oracle) *)
+Fixpoint members_loop (member : list Z -> bool) (pks : list (list Z)) : res bool :=
+  match pks with
+  | [] => Ok true
+  | pk :: rest =>
+    k <- slice_from pk 1 ;;
+    if negb (member k) then Ok false else members_loop member rest
+  end.
+
+Definition arbiter_signatures (counts_ok : Z -> Z -> bool) (member : list Z -> bool)
+    (codes : list (list Z)) : res bool :=
+  if len codes =? 0 then Ok false else
+  code <- idx codes 0 ;;
+  if len code <? 71 then Ok false else
+  cn <- idx code (len code - 2) ;;
+  c0 <- idx code 0 ;;
+  if negb (counts_ok (c0 - 81 + 1) (cn - 81 + 1)) then Ok false else
+  ks <- parse_script 174 code ;;
+  match ks with
+  | None => Ok false
+  | Some pks => members_loop member pks
+  end.
+
 (* ---------------------------------------------------------------- composition *)
 
 (* a decoded transaction: the sanity check CheckAttributeProgram, then (only
